@@ -593,3 +593,8 @@ Proof.
     assert (Esk : skipn (length pre) H = rest) by (rewrite E; apply skipn_at). rewrite Esk. cbn [bind].
     unfold resp_parseHeaders. rewrite scan_init_needmore by auto. reflexivity.
 Qed.
+
+Lemma scan_next_safe P l rem :
+  tail_inv (l :: rem) -> starts_spht l = false ->
+  exists res, scan_next (P ++ join (l :: rem)) (length P) = Ok res.
+Proof. intros H1 H2. destruct (scan_next_lines P l rem H1 H2) as (res & E & _). eauto. Qed.
